@@ -716,10 +716,10 @@ def oracle(rng, tier):
             failures.append(f)
     # parsers on one written module: several definitions (doc-sharing stubs and implementations, classes with an
     # __init__ under any receiver name, argparse functions) in one tree, every parse sequence up to maxlen
-    n_m = 24 if tier == "quick" else 100
+    n_m = 24 if tier == "quick" else 60
     for _ in range(n_m):
         mod = gen_tree_module(rng)
-        ev, fs = explore_tree(mod, 3 if tier == "quick" else 4, emit_share=0.5, rng=rng)
+        ev, fs = explore_tree(mod, 3 if tier == "quick" else 4, emit_share=0.5 if tier == "quick" else 0.3, rng=rng)
         total += ev
         hist["module-trees"] += 1
         hist["module-trees:targets:%d" % len(mod["targets"])] += 1
